@@ -36,8 +36,8 @@ from vlib import lean_list, lean_str
 
 ID = "C12"
 OWN_LEANCHECKER = True  # this module runs leanchecker itself in the thorough tier
-LEAN_MODULES = ["FaxVerif.C12.Theorems"]
-LEAN_SOURCES = ["FaxVerif/C12", "FaxVerif/Generated/C12Table.lean"]
+LEAN_MODULES = ["FaxVerif.C12.Theorems", "FaxVerif.C12.PosTheorems", "FaxVerif.C12.PosAccepted"]
+LEAN_SOURCES = ["FaxVerif/C12", "FaxVerif/Generated/C12Table.lean"]  # FaxVerif/C12 holds PosModel / PosSpec / PosTheorems too
 DRIVER = "FaxVerif/C12/Driver.lean"
 GENERATED = vlib.LEAN / "FaxVerif" / "Generated" / "C12Table.lean"
 
@@ -166,6 +166,34 @@ def read_ops(src: str, name: str) -> Tuple[List[Tuple[str, str]], List[str]]:
     return out, bad  # type: ignore
 
 
+def read_seq_ops(src: str) -> Tuple[List[str], List[str]]:
+    """the names FuncADLNodeVisitor.visit_Call dispatches on: the `call_<name>` methods of query_ast_visitor"""
+    for cls in [s for s in ast.parse(src).body if isinstance(s, ast.ClassDef) and s.name == "query_ast_visitor"]:
+        return [fn.name[5:] for fn in cls.body if isinstance(fn, ast.FunctionDef) and fn.name.startswith("call_")], []
+    return [], ["ast_to_cpp_translator.py: no class query_ast_visitor"]
+
+
+def read_gen_names(src: str) -> Tuple[Dict[str, str], List[str]]:
+    """the base names the translator hands to unique_name for the result of a conditional, of and / or, and for an accumulator"""
+    want = {"ifName": "visit_IfExp", "boolName": "visit_BoolOp", "accName": "_create_accumulator"}
+    out: Dict[str, str] = {}
+    bad: List[str] = []
+    for cls in [s for s in ast.parse(src).body if isinstance(s, ast.ClassDef) and s.name == "query_ast_visitor"]:
+        for key, fname in want.items():
+            lits = [_lit_str(c.args[0]) for fn in cls.body if isinstance(fn, ast.FunctionDef) and fn.name == fname for c in ast.walk(fn)
+                    if isinstance(c, ast.Call) and isinstance(c.func, ast.Name) and c.func.id == "unique_name" and len(c.args) == 1]
+            if len(lits) == 1 and lits[0] is not None and re.fullmatch(r"[A-Za-z_]\w*", lits[0]):
+                out[key] = lits[0]
+            else:
+                bad.append(f"ast_to_cpp_translator.py {fname}: expected exactly one unique_name(<literal>) call, found {lits!r}")
+                out[key] = "unrecognised"
+    for key in want:
+        if key not in out:
+            bad.append("ast_to_cpp_translator.py: no class query_ast_visitor")
+            out[key] = "unrecognised"
+    return out, bad
+
+
 def eval_scope(src: str) -> Tuple[List[str], List[str]]:
     """Names that are *local* at the `eval(node.func.id)` of find_known_functions.visit_Call when it runs
     (the parameters of the method)."""
@@ -220,6 +248,9 @@ def read_all() -> Dict[str, Any]:
     binops, bad4 = read_ops(src_t, "_known_binary_operators")
     unops, bad5 = read_ops(src_t, "_known_unary_operators")
     locals_, bad6 = eval_scope(src_f)
+    cmpops, bad7 = read_ops(src_t, "compare_operations")
+    seqops, bad8 = read_seq_ops(src_t)
+    gennames, bad9 = read_gen_names(src_t)
     ns = vars(live_module())
     # names whose resolution can matter to a lookup: the documented names, the bare keys and the last
     # component of the dotted keys; plus everything bound in the scope of the eval (parameters, module
@@ -237,7 +268,8 @@ def read_all() -> Dict[str, Any]:
                 env.append((k, b))
     env = [(n, b) for n, b in env if b[0] != "unbound"]
     return {"rows": rows, "readme": readme, "prio": prio, "binops": binops, "unops": unops, "env": env, "locals": locals_,
-            "unrecognised": bad + bad2 + bad3 + bad4 + bad5 + bad6}
+            "cmpops": cmpops, "seqops": seqops, "gennames": gennames,
+            "unrecognised": bad + bad2 + bad3 + bad4 + bad5 + bad6 + bad7 + bad8 + bad9}
 
 
 def render_generated(g: Dict[str, Any]) -> str:
@@ -252,7 +284,15 @@ def render_generated(g: Dict[str, Any]) -> str:
           "def typePriority : List (String × Nat) := " + lean_list(f"({lean_str(k)}, {v})" for k, v in g["prio"]), "",
           "/-- `_known_binary_operators` / `_known_unary_operators`: python ast class ↦ C++ symbol -/",
           "def binOps : List (String × String) := " + lean_list(f"({lean_str(k)}, {lean_str(v)})" for k, v in g["binops"]),
-          "def unOps : List (String × String) := " + lean_list(f"({lean_str(k)}, {lean_str(v)})" for k, v in g["unops"]), "",
+          "def unOps : List (String × String) := " + lean_list(f"({lean_str(k)}, {lean_str(v)})" for k, v in g["unops"]),
+          "/-- `compare_operations` -/",
+          "def cmpOps : List (String × String) := " + lean_list(f"({lean_str(k)}, {lean_str(v)})" for k, v in g["cmpops"]),
+          "/-- the `call_<name>` methods of `query_ast_visitor` (what `FuncADLNodeVisitor.visit_Call` dispatches a Name-call to) -/",
+          "def seqOps : List String := " + lean_list(lean_str(n) for n in g["seqops"]),
+          "/-- the base names given to `unique_name` in visit_IfExp / visit_BoolOp / _create_accumulator -/",
+          "def ifName : String := " + lean_str(g["gennames"]["ifName"]),
+          "def boolName : String := " + lean_str(g["gennames"]["boolName"]),
+          "def accName : String := " + lean_str(g["gennames"]["accName"]), "",
           "/-- every name that is bound where `eval(node.func.id)` runs (parameters of visit_Call, globals of",
           "cpp_functions.py, python builtins) with the `__module__` of what it is bound to -/",
           "def evalEnv : Env := ["]
@@ -1677,6 +1717,15 @@ PLACEMENTS: Dict[str, str] = {
     "inner-select": "Select(DS, lambda e: COLL.Select(lambda j: @F@))",
     "boolean-operand": "Select(SelectMany(DS, lambda e: COLL), lambda j: @F@ > 1.0 and j.pt() > 2)",
     "method-argument-of-first": "Select(DS, lambda e: COLL.First().mD(@F@))".replace("@F@", "@G@"),
+    "list-element": "Select(SelectMany(DS, lambda e: COLL), lambda j: [j.pt(), @F@])",
+    "or-operand": "Select(SelectMany(DS, lambda e: COLL), lambda j: @F@ > 1.0 or j.pt() > 2)",
+    "aggregate-body": "Select(DS, lambda e: COLL.Aggregate(0.0, lambda acc, j: acc + @F@))",
+    "aggregate-seed": "Select(DS, lambda e: COLL.Aggregate(@F@, lambda acc, j: acc + j.pt()))".replace("@F@", "@G@"),
+    "sum-of-inner-select": "Select(DS, lambda e: COLL.Select(lambda j: @F@).Sum())",
+    # shadowing: a method / a lambda parameter / a user C++ function NAMED LIKE the function (@N@ = its name)
+    "shadow-method": "Select(SelectMany(DS, lambda e: COLL), lambda j: j.@N@(@F@))",
+    "shadow-lambda-parameter": "Select(DS, lambda e: COLL.Select(lambda @N@: @FN@))",
+    "shadow-user-function": "Select(SelectMany(DS, lambda e: COLL), lambda j: @F@)",
     # the value of the function is the row (object level): the positions the histories are run on
     "column": "Select(SelectMany(DS, lambda e: COLL), lambda j: @F@)",
     "column-in-arithmetic": "Select(SelectMany(DS, lambda e: COLL), lambda j: @F@ * 2 + 1)",
@@ -1706,7 +1755,11 @@ JOB_PLACEMENTS: Dict[str, Any] = {
     "event-dict-element": ("event", lambda F: [_CNT, F], None),
     "event-other-function-argument": ("event", lambda F: [("call", "atan", [F])], None),
     "event-filter": ("event", lambda F: [_CNT], lambda F: F),
+    "sum-of-inner-select": ("event", "sum", None),
+    "aggregate-body": ("event", "sum", None),
 }
+CONSTANT_PLACEMENTS = ("method-argument-of-first", "aggregate-seed")  # no loop variable there: constant arguments
+SHADOW_HEADER = "c12shadow.h"
 # histories: what happened to the query object before the translation that is judged
 #   fresh               nothing: a new AST, a new executor
 #   again               the transformed AST was already written once by the same executor
@@ -1723,16 +1776,194 @@ def placement_query(backend: str, placement: str, e) -> str:
             {"metadata_type": "add_method_type_info", "type_string": b["elem"], "method_name": "vD", "return_type_element": "double"},
             {"metadata_type": "add_cpp_function", "name": "c12_twice", "include_files": [], "arguments": ["c12_x"],
              "code": ["double result = 2.0 * (c12_x);"], "return_type": "double"}]
+    if placement == "shadow-user-function" and e[0] == "call":
+        # a user C++ function with the NAME of the math function: the table wins, this code must not be used
+        mds.append({"metadata_type": "add_cpp_function", "name": e[1], "include_files": [SHADOW_HEADER], "arguments": [f"c12_a{i}" for i in range(len(e[2]))],
+                    "code": ["double result = 12345.0;"], "return_type": "double"})
     ds = "EventDataset()"
     for m in mds:
         ds = f"MetaData({ds}, {m!r})"
-    src = to_src(e)
     # "@G@": the function applied to a constant (no loop variable in scope at that position)
-    return PLACEMENTS[placement].replace(PLACE_TOKEN, src).replace("@G@", src).replace("DS", ds).replace("COLL", b["coll"])
+    return placement_text(placement, to_src(e), e).replace("DS", ds).replace("COLL", b["coll"])
 
 
-def placement_text(placement: str, src: str) -> str:
-    return PLACEMENTS[placement].replace(PLACE_TOKEN, src).replace("@G@", src)
+def placement_text(placement: str, src: str, e: Any = None) -> str:
+    name = e[1] if e is not None and e[0] == "call" else "sin"
+    renamed = re.sub(r"\bj\.", name + ".", src)  # the loop variable is called like the function
+    return PLACEMENTS[placement].replace("@FN@", renamed).replace(PLACE_TOKEN, src).replace("@G@", src).replace("@N@", name)
+
+
+# --------------------------------------------------------------------------------------------
+# the POSITIONS model (lean/FaxVerif/C12/PosModel.lean): the fragment of the query around the call, as the model's QExpr
+# --------------------------------------------------------------------------------------------
+
+def _node(kind: Dict[str, Any], *kids) -> Dict[str, Any]:
+    return {"k": "node", "kind": kind, "kids": list(kids)}
+
+
+def _lf(t: str, ty: str) -> Dict[str, Any]:
+    return {"k": "leaf", "t": t, "ty": ty}
+
+
+def _meth(name: str, ret: str, *kids, coll: bool = False) -> Dict[str, Any]:
+    return _node({"t": "meth", "name": name, "ret": ret, "coll": coll}, *kids)
+
+
+def _cmp(op: str, l, r) -> Dict[str, Any]:
+    return _node({"t": "cmp", "op": op}, l, r)
+
+
+def _bin(op: str, l, r) -> Dict[str, Any]:
+    return _node({"t": "bin", "op": op}, l, r)
+
+
+def _lam(params: List[str], body) -> Dict[str, Any]:
+    return _node({"t": "lam", "params": params}, body)
+
+
+def _qcall(f: str, *args) -> Dict[str, Any]:
+    return {"k": "call", "f": f, "args": list(args)}
+
+
+_TIMES2PLUS1 = lambda F: _bin("Add", _bin("Mult", F, _lf("2", "int")), _lf("1", "int"))  # noqa: E731
+# placement -> (F, pt, name) -> the position as the model's QExpr (j: the loop variable; pt: the operand `j.pt()`;
+# COLL / the dataset are opaque leaves: what they emit is not C12's business)
+POSITIONS: Dict[str, Any] = {
+    "method-argument": lambda F, pt, n: _meth("mD", "double", {"k": "var", "n": "j"}, F),
+    "method-argument-of-first": lambda F, pt, n: _meth("mD", "double", {"k": "var", "n": "j"}, F),
+    "method-argument-in-arithmetic": lambda F, pt, n: _bin("Add", _lf("1", "int"), _bin("Mult", _meth("mD", "double", {"k": "var", "n": "j"}, F, pt), _lf("2", "int"))),
+    "cpp-function-argument": lambda F, pt, n: _qcall("c12_twice", F),
+    "tuple-element": lambda F, pt, n: _node({"t": "tuple"}, pt, F),
+    "list-element": lambda F, pt, n: _node({"t": "list"}, pt, F),
+    "dict-element": lambda F, pt, n: _node({"t": "dict", "keys": ["a", "b"]}, pt, F),
+    "index-expression": lambda F, pt, n: _node({"t": "index"}, _meth("vD", "double", {"k": "var", "n": "j"}, coll=True), F),
+    "conditional-test": lambda F, pt, n: _node({"t": "ite"}, _cmp("Gt", F, _lf("0.5", "double")), _lf("1.5", "double"), _lf("2.5", "double")),
+    "conditional-arms": lambda F, pt, n: _node({"t": "ite"}, _cmp("Gt", pt, _lf("1.0", "double")), F, _node({"t": "un", "op": "USub"}, F)),
+    "other-function-argument": lambda F, pt, n: _qcall("sqrt", F),
+    "where-predicate": lambda F, pt, n: _qcall("Where", _lf("<COLL>", "coll"), _lam(["j"], _cmp("Lt", F, _lf("2.4", "double")))),
+    "where-predicate-then-method": lambda F, pt, n: _qcall("Where", _lf("<COLL>", "coll"), _lam(["j"], _cmp("Lt", F, _lf("2.4", "double")))),
+    "inner-select": lambda F, pt, n: _lam(["j"], F),
+    "boolean-operand": lambda F, pt, n: _node({"t": "boolop", "op": "And"}, _cmp("Gt", F, _lf("1.0", "double")), _cmp("Gt", pt, _lf("2", "int"))),
+    "or-operand": lambda F, pt, n: _node({"t": "boolop", "op": "Or"}, _cmp("Gt", F, _lf("1.0", "double")), _cmp("Gt", pt, _lf("2", "int"))),
+    "aggregate-body": lambda F, pt, n: _qcall("Aggregate", _lf("<COLL>", "coll"), _lf("0.0", "double"), _lam(["acc", "j"], _bin("Add", {"k": "var", "n": "acc"}, F))),
+    "aggregate-seed": lambda F, pt, n: _qcall("Aggregate", _lf("<COLL>", "coll"), F, _lam(["acc", "j"], _bin("Add", {"k": "var", "n": "acc"}, pt))),
+    "sum-of-inner-select": lambda F, pt, n: _lam(["j"], F),
+    "shadow-method": lambda F, pt, n: _meth(n, "double", {"k": "var", "n": "j"}, F),
+    "shadow-lambda-parameter": lambda F, pt, n: _lam([n], F),
+    "shadow-user-function": lambda F, pt, n: F,
+    "column": lambda F, pt, n: F,
+    "column-in-arithmetic": lambda F, pt, n: _TIMES2PLUS1(F),
+    "event-column": lambda F, pt, n: F,
+    "event-column-in-arithmetic": lambda F, pt, n: _TIMES2PLUS1(F),
+    "event-tuple-first": lambda F, pt, n: _node({"t": "tuple"}, F, _lf("aggResult", "int")),
+    "event-tuple-last": lambda F, pt, n: _node({"t": "tuple"}, _lf("aggResult", "int"), F),
+    "event-dict-element": lambda F, pt, n: _node({"t": "dict", "keys": ["n", "v"]}, _lf("aggResult", "int"), F),
+    "event-other-function-argument": lambda F, pt, n: _qcall("atan", F),
+    "event-filter": lambda F, pt, n: _qcall("Where", _lf("<DS>", "coll"), _lam(["e"], _cmp("Gt", F, _lf("0.5", "double")))),
+}
+# nested positions: the constructs composed at random around the call.  A shape is a term in prefix notation over
+#   F the call | P j.pt() | K 1.5 | M(x) j.mD(x) | U(x) c12_twice(x) | X(x) j.vD()[x] | S(x) sqrt(x) | N(x) -x
+#   I(a,b,c) (b if a > 0.5 else c) | A(a,b) (a + b) | D(a,b) (a / b)
+# registered as the placement "nested:<shape>" (query template and position builder at once)
+_NESTED_ARITY = {"F": 0, "P": 0, "K": 0, "M": 1, "U": 1, "X": 1, "S": 1, "N": 1, "I": 3, "A": 2, "D": 2}
+
+
+def _parse_shape(text: str):
+    pos = 0
+
+    def go():
+        nonlocal pos
+        h = text[pos]
+        pos += 1
+        n = _NESTED_ARITY[h]
+        kids = []
+        if n:
+            assert text[pos] == "("
+            pos += 1
+            for i in range(n):
+                kids.append(go())
+                assert text[pos] == ("," if i < n - 1 else ")")
+                pos += 1
+        return (h, kids)
+
+    t = go()
+    assert pos == len(text)
+    return t
+
+
+def _shape_src(t) -> str:
+    h, k = t
+    s = [_shape_src(x) for x in k]
+    return {"F": lambda: PLACE_TOKEN, "P": lambda: "j.pt()", "K": lambda: "1.5", "M": lambda: f"j.mD({s[0]})", "U": lambda: f"c12_twice({s[0]})",
+            "X": lambda: f"j.vD()[{s[0]}]", "S": lambda: f"sqrt({s[0]})", "N": lambda: f"(-{s[0]})", "I": lambda: f"({s[1]} if {s[0]} > 0.5 else {s[2]})",
+            "A": lambda: f"({s[0]} + {s[1]})", "D": lambda: f"({s[0]} / {s[1]})"}[h]()
+
+
+def _shape_q(t, F, pt):
+    h, k = t
+    q = [_shape_q(x, F, pt) for x in k]
+    j = {"k": "var", "n": "j"}
+    return {"F": lambda: F, "P": lambda: pt, "K": lambda: _lf("1.5", "double"), "M": lambda: _meth("mD", "double", j, q[0]), "U": lambda: _qcall("c12_twice", q[0]),
+            "X": lambda: _node({"t": "index"}, _meth("vD", "double", j, coll=True), q[0]), "S": lambda: _qcall("sqrt", q[0]),
+            "N": lambda: _node({"t": "un", "op": "USub"}, q[0]), "I": lambda: _node({"t": "ite"}, _cmp("Gt", q[0], _lf("0.5", "double")), q[1], q[2]),
+            "A": lambda: _bin("Add", q[0], q[1]), "D": lambda: _bin("Div", q[0], q[1])}[h]()
+
+
+def register_nested(placement: str) -> bool:
+    if not placement.startswith("nested:"):
+        return placement in PLACEMENTS
+    if placement not in PLACEMENTS:
+        try:
+            t = _parse_shape(placement[7:])
+        except (AssertionError, KeyError, IndexError):
+            return False
+        PLACEMENTS[placement] = "Select(SelectMany(DS, lambda e: COLL), lambda j: " + _shape_src(t) + ")"
+        POSITIONS[placement] = lambda F, pt, n, t=t: _shape_q(t, F, pt)
+    return True
+
+
+def random_shape(rng, depth: int) -> str:
+    def go(d: int, must: bool) -> str:
+        if d == 0:
+            return "F" if must or rng.random() < 0.4 else rng.choice(["P", "K"])
+        h = rng.choice(["M", "U", "X", "S", "N", "I", "A", "D", "I", "M", "U"])
+        n = _NESTED_ARITY[h]
+        where = rng.randrange(n) if must else -1
+        return h + "(" + ",".join(go(d - 1 if rng.random() < 0.8 else 0, i == where) for i in range(n)) + ")"
+
+    return go(depth, True)
+
+
+_GEN_NAMES: Dict[str, str] = {}
+
+
+def gen_names() -> Dict[str, str]:
+    if not _GEN_NAMES:
+        _GEN_NAMES.update(read_gen_names((vlib.REPO / SRC_TRANS).read_text())[0])
+    return _GEN_NAMES
+
+
+def position_request(backend: str, placement: str, e, o: Dict[str, Any]) -> Optional[Dict[str, Any]]:
+    """the driver request `trx` for one placement: the position as QExpr, the user functions and variables of the query, and —
+    when the translator accepted — the statements of the rendered per-event method and the include files it added"""
+    if placement not in POSITIONS or e[0] != "call":
+        return None
+    sep = BACKENDS[backend]["sep"]
+    name = e[1]
+    obj = "obj*" if sep == "->" else "obj"
+    q = POSITIONS[placement](to_json(e, sep), _lf(f"i_obj{sep}pt()", "double"), name)
+    fns = [{"name": "c12_twice", "nargs": 1, "incs": [], "ret": "double"}]
+    if placement == "shadow-user-function":
+        fns.append({"name": name, "nargs": len(e[2]), "incs": [SHADOW_HEADER], "ret": "double"})
+    gn = gen_names()
+    names_re = re.compile(r"\b(i_obj|aggResult|c12_twice|" + "|".join(re.escape(v) for v in gn.values()) + r")\d+")
+    vs = [["j", "i_obj", obj], ["acc", gn["accName"], "double"]]
+    if placement == "shadow-lambda-parameter":
+        vs.append([name, "i_obj", obj])
+    lines = None
+    if "err" not in o and o.get("body"):
+        lines = [nospace(names_re.sub(lambda m: m.group(1), l)) for l in o["body"].splitlines() if l.strip() and not l.strip().startswith(("//", "#"))]
+    return {"op": "trx", "expr": q, "fns": fns, "vars": vs, "lines": lines, "incs": o.get("incs", [])}
 
 
 def norm_names(text: str) -> str:
@@ -2060,9 +2291,9 @@ def job_expectation(ctx, placement: str, e) -> Optional[Dict[str, Any]]:
     for jets in events:
         rows: Optional[List[List[Any]]] = []
         for s in (jets if per == "jet" else [jets[0]]):
-            if cols == "vec":
+            if cols in ("vec", "sum"):
                 vals = [robust_value(ctx, e, j, jets) for j in jets]
-                row = [None if any(v is None for v in vals) else vals]
+                row = [None if any(v is None for v in vals) else (vals if cols == "vec" else math.fsum(vals))]
             else:
                 row = [robust_value(ctx, x, s, jets) for x in cols(e)]
             if filt is not None:
@@ -2136,13 +2367,15 @@ def judge_placements(ctx, cases: List[Tuple[Any, ...]]) -> List[Dict[str, Any]]:
         reqs.append({"op": "placement", "expr": to_json(e, sep), "leaves": leaves_of(e, sep), "obs": {"code": o["code"], "incs": o["incs"]} if ok else None})
         reqs.append({"op": "alive", "expr": to_json(e, sep), "leaves": leaves_of(e, sep), "members": [nm for _, nm in o["members"]] if ok else [],
                      "lines": method_lines(o["body"]) if ok and o.get("body") else []})
+        reqs.append(position_request(b, pl, e, o) or {"op": "accepted", "name": "sin"})
     ans = ctx.driver(DRIVER, reqs)
     recs = []
     items = []
     for i, (c, o) in enumerate(zip(cases, obs)):
         b, pl, e = c[:3]
         r = {"backend": b, "placement": pl, "expr": e, "history": c[3] if len(c) > 3 else "fresh", "src": to_src(e), "obs": o,
-             "model": ans[3 * i], "spec": ans[3 * i + 1], "alive": ans[3 * i + 2], "job": None}
+             "model": ans[4 * i], "spec": ans[4 * i + 1], "alive": ans[4 * i + 2], "job": None,
+             "pos": ans[4 * i + 3] if position_request(b, pl, e, o) else None, "pos_expr": (position_request(b, pl, e, o) or {}).get("expr")}
         if "err" not in o and not o.get("body"):
             r["alive"] = {"bad": "the per-event method was not found in the rendered main file"}
         if pl in JOB_PLACEMENTS and "err" not in o and o.get("body") and "bad" not in r["model"] and r["model"].get("documented"):
@@ -2186,7 +2419,7 @@ def history_text(h: str) -> str:
 def placement_cases(ctx, g) -> List[Tuple[Any, ...]]:
     names = [n for n in g["readme"] if n in REF and n != "remquo"]
     few = ["abs", "cosh", "round", "ilogb", "pow", "fma", "ldexp", "nan"]
-    old = [pl for pl in PLACEMENTS if pl not in EVENT_PLACEMENTS]
+    old = [pl for pl in PLACEMENTS if pl not in EVENT_PLACEMENTS and not pl.startswith("nested:")]
     out: List[Tuple[Any, ...]] = []
     for n in names:
         for pl in old:
@@ -2194,7 +2427,7 @@ def placement_cases(ctx, g) -> List[Tuple[Any, ...]]:
                 if ctx.tier == "quick" and b != "atlas" and n not in few:
                     continue
                 e = call_of(n)
-                if pl == "method-argument-of-first":  # no loop variable there: constant arguments
+                if pl in CONSTANT_PLACEMENTS:  # no loop variable there: constant arguments
                     e = ("call", n, [a if a[0] != "m" else ("f", 0.5) for a in e[2]])
                 out.append((b, pl, e, "fresh"))
     # event level: every function on values that come straight out of a First(), as the whole column …
@@ -2208,6 +2441,11 @@ def placement_cases(ctx, g) -> List[Tuple[Any, ...]]:
     backs = list(BACKENDS)
     for i in range(90 if ctx.tier == "quick" else 1500):
         out.append((backs[i % 3], ctx.rng.choice(EVENT_PLACEMENTS), event_call_of(ctx.rng.choice(names), ctx.rng), "fresh"))
+    # nested positions: the constructs composed at random around the call (depth <= 3), the tie of the positions model is the judge of the model
+    for i in range(150 if ctx.tier == "quick" else 2500):
+        pl = "nested:" + random_shape(ctx.rng, ctx.rng.choice([1, 2, 2, 3]))
+        register_nested(pl)
+        out.append((backs[i % 3], pl, call_of(ctx.rng.choice(names)), "fresh"))
     # histories: the same query object translated once more
     hist = [h for h in HISTORIES if h != "fresh"]
     jobpl = list(JOB_PLACEMENTS)
@@ -2256,10 +2494,10 @@ def event_call_of(f: str, rng):
 
 
 def check_placements(ctx, g) -> None:
-    pre = [(c["backend"], c["placement"], _tuplify(c["expr"]), c.get("history", "fresh")) for c in vlib.corpus_cases(ID) if c.get("placement") in PLACEMENTS]
+    pre = [(c["backend"], c["placement"], _tuplify(c["expr"]), c.get("history", "fresh")) for c in vlib.corpus_cases(ID) if c.get("placement") and register_nested(c["placement"])]
     recs = judge_placements(ctx, pre + placement_cases(ctx, g))
     for r in recs:
-        ctx.count("placement:" + r["placement"])
+        ctx.count("placement:" + r["placement"].split(":")[0])
         ctx.count("history:" + r["history"])
         if r["job"] and r["job"].get("got") and "events" in r["job"]["got"]:
             ctx.count("g++:job-cases-evaluated")
@@ -2272,16 +2510,16 @@ def check_placements(ctx, g) -> None:
         smp = None
         if r["placement"] == "method-argument" and ctx.dist.get("sampled:placement", 0) < 1 and "err" not in r["obs"]:
             ctx.count("sampled:placement")
-            smp = {"backend": r["backend"], "placement": r["placement"], "query": placement_text(r["placement"], r["src"]),
+            smp = {"backend": r["backend"], "placement": r["placement"], "query": placement_text(r["placement"], r["src"], r["expr"]),
                    "emitted_lines_with_std": r["obs"]["code"].split("\n")[:3], "placement_spec_on_implementation": r["spec"]}
         elif r["placement"] in EVENT_PLACEMENTS and ctx.dist.get("sampled:event-placement", 0) < 1 and r["job"] and isinstance(r["job"].get("got"), dict) and "events" in r["job"]["got"]:
             ctx.count("sampled:event-placement")
-            smp = {"backend": r["backend"], "placement": r["placement"], "query": placement_text(r["placement"], r["src"]),
+            smp = {"backend": r["backend"], "placement": r["placement"], "query": placement_text(r["placement"], r["src"], r["expr"]),
                    "emitted_lines_with_std": r["obs"]["code"].split("\n")[:3], "placement_spec_on_implementation": r["spec"], "alive_spec_on_implementation": r["alive"],
                    "mock_event_jets_pt_eta_phi": r["job"]["events"][0], "compiled_job_rows": r["job"]["got"]["events"].get(0), "function_of_that_name_rows": r["job"]["expected"][0]}
         elif r["history"] != "fresh" and ctx.dist.get("sampled:history", 0) < 1 and "err" not in r["obs"]:
             ctx.count("sampled:history")
-            smp = {"backend": r["backend"], "placement": r["placement"], "history": r["history"], "query": placement_text(r["placement"], r["src"]),
+            smp = {"backend": r["backend"], "placement": r["placement"], "history": r["history"], "query": placement_text(r["placement"], r["src"], r["expr"]),
                    "emitted_lines_with_std_of_the_last_translation": r["obs"]["code"].split("\n")[:3], "includes_added_by_the_last_translation": r["obs"]["incs"],
                    "placement_spec_on_implementation": r["spec"], "alive_spec_on_implementation": r["alive"]}
         ctx.case({"place": [r["backend"], r["placement"], r["src"], r["history"]]}, True, smp)
@@ -2292,7 +2530,7 @@ def check_placements(ctx, g) -> None:
             ctx.violation(key=f"place:{r['backend']}:{r['placement']}{hk}:{r['src']}",
                           what=f"{r['src']} as {r['placement']} on {r['backend']}{history_text(r['history'])}: {why}",
                           case={"backend": r["backend"], "placement": r["placement"], "expr": r["expr"], "src": r["src"], "history": r["history"],
-                                "query": placement_text(r["placement"], r["src"])},
+                                "query": placement_text(r["placement"], r["src"], r["expr"])},
                           observed={"translator": obs, "job": r.get("job")},
                           how="python: ast.parse(<query with DS = the dataset wrapped in the MetaData of placement_query, COLL = the backend's collection>, mode='eval').body "
                           "through <backend>_executor().apply_ast_transformations + write_cpp_files (history: see HISTORIES in tools/props/c12.py); or ./check C12 --replay <this file>")
@@ -2300,6 +2538,27 @@ def check_placements(ctx, g) -> None:
         if "ok" in r["model"] and "err" not in r["obs"] and nospace(r["model"]["ok"]["text"]) not in r["obs"]["code"]:
             ctx.disagreement("placement: the model's text of the call occurs in the emitted code", {"backend": r["backend"], "placement": r["placement"], "history": r["history"], "src": r["src"]},
                              nospace(r["model"]["ok"]["text"]), r["obs"]["code"][:300])
+        # the tie of the POSITIONS model: its statements (in order) and the text of its value stand in the rendered method, its
+        # include requests were added; accepted by both or refused by both
+        pos = r.get("pos")
+        if pos is not None and "bad" not in pos:
+            ctx.count("position-model:" + ("translated" if "ok" in pos else "refused"))
+            where = {"backend": r["backend"], "placement": r["placement"], "history": r["history"], "src": r["src"], "position": r.get("pos_expr")}
+            if "ok" in pos:
+                ctx.count("position-model:in-theorem-scope" if pos.get("scoped") else "position-model:beyond-theorem-scope")
+            if ("ok" in pos) != ("err" not in r["obs"]):
+                ctx.disagreement("position: accepted by the positions model vs by the translator", where,
+                                 {"model": "accepted" if "ok" in pos else pos.get("err")}, {"refused": r["obs"].get("err")} if "err" in r["obs"] else "accepted")
+            elif "ok" in pos and pos.get("tie") and not pos["tie"].get("holds"):
+                ctx.disagreement("position: the statements / value text / includes of the positions model vs the rendered per-event method", where,
+                                 {"frags": pos["ok"]["frags"], "incs": pos["ok"]["incs"], "why": pos["tie"].get("why")},
+                                 {"method": (r["obs"].get("body") or "")[:1500], "incs": r["obs"].get("incs")})
+            elif "ok" in pos and r["placement"] == "shadow-user-function" and SHADOW_HEADER in (r["obs"].get("incs") or []) and SHADOW_HEADER not in pos["ok"]["incs"]:
+                ctx.disagreement("position: include files of a user function shadowed by the table", where, pos["ok"]["incs"], r["obs"].get("incs"))
+            if ctx.dist.get("sampled:position", 0) < 1 and "ok" in pos and r["placement"] == "conditional-arms":
+                ctx.count("sampled:position")
+        elif pos is not None:
+            ctx.notes.append("positions driver: " + str(pos)[:200])
         if ("ok" in r["model"]) != ("err" not in r["obs"]):
             ctx.disagreement("placement: accepted by the model vs by the translator", {"backend": r["backend"], "placement": r["placement"], "history": r["history"], "src": r["src"]},
                              canon_model(r["model"]), {"refused": r["obs"].get("err")} if "err" in r["obs"] else "accepted")
@@ -2311,7 +2570,8 @@ def run(ctx):
         ctx.notes.append("translator could not read: " + "; ".join(g["unrecognised"][:5]))
     if ctx.tier == "thorough" and not any(b.get("kind") == "lean-build" for b in ctx.broken):
         # replay the compiled modules through the external kernel checker
-        mods = ["FaxVerif.C12.Model", "FaxVerif.C12.Spec", "FaxVerif.Generated.C12Table", "FaxVerif.C12.Proofs", "FaxVerif.C12.Theorems"]
+        mods = ["FaxVerif.C12.Model", "FaxVerif.C12.Spec", "FaxVerif.Generated.C12Table", "FaxVerif.C12.Proofs", "FaxVerif.C12.Theorems",
+                "FaxVerif.C12.PosModel", "FaxVerif.C12.PosSpec", "FaxVerif.C12.PosTheorems", "FaxVerif.C12.PosAccepted"]
         with vlib.LakeLock():
             rc, out, err = vlib.sh(["lake", "env", "leanchecker"] + mods, cwd=vlib.LEAN, timeout=1200)
         ctx.count("leanchecker:modules", len(mods))
@@ -2446,8 +2706,11 @@ def search(ctx, broken):
 def replay(ctx, rep) -> int:
     case = rep.get("case") or {}
     if "expr" in case and "placement" in case:
+        if not register_nested(case["placement"]):
+            print("unknown placement", case["placement"])
+            return 1
         r = judge_placements(ctx, [(case["backend"], case["placement"], _tuplify(case["expr"]), case.get("history", "fresh"))])[0]
-        print("query:", placement_text(case["placement"], r["src"]), " backend:", r["backend"], " history:", r["history"] + history_text(r["history"]))
+        print("query:", placement_text(case["placement"], r["src"], r["expr"]), " backend:", r["backend"], " history:", r["history"] + history_text(r["history"]))
         print("translator:", {k: v for k, v in r["obs"].items() if k not in ("members", "body")})
         if r["obs"].get("body"):
             print("per-event method of the judged translation:")
@@ -2530,6 +2793,14 @@ THEOREMS = ["FaxVerif.C12." + t for t in [
     "computes_namesake_counterexample_remquo", "computes_namesake_counterexample_abs_int",
     "call_alive", "alive_spec_model", "alive_discriminates_late", "alive_discriminates_stale",
     "package_companions_partial", "companions_keep_all", "companions_discriminates",
+    # the positions (PosTheorems.lean)
+    "resolved_everywhere", "documented_resolved_everywhere", "resolve_total", "documented_positions_never_refused",
+    "shadow_method", "shadow_lambda_param", "shadow_variable", "shadow_user_function", "user_function_used_iff_not_in_table",
+    "call_emitted_everywhere", "includes_of_replaced", "includes_reachable_positions", "package_positions",
+    "sem_emit", "namesake_semantics_positions", "documented_call_in_scope", "cmp_ops_ok",
+    "namesake_positions_counterexample_abs_int", "position_tie_discriminates",
+    # acceptance at the positions (PosAccepted.lean)
+    "accepted_emit", "positions_accepted",
 ]]
 RULE = (
     "(a) every row of functions_to_replace as it is at run time (row Spec: namesake, header, declared type = C++ result type, arithmetic type; each row is a non-trivial case); (b) name "
@@ -2543,9 +2814,12 @@ RULE = (
     "function or **, without and with five shapes of inject_code metadata whose header_includes / body_includes do or do not list cmath: every rendered C++ file that "
     "calls a std:: math function must include cmath directly or through a rendered header it includes (every such case is non-trivial); (e) placements: every documented function (arguments as in (c)) written as the argument of a metadata-declared object "
     "method (alone, inside arithmetic, on First()), of a user C++ function (add_cpp_function), as tuple / dict element, index expression, test and arms of a "
-    "conditional, argument of another documented function, predicate of Where (then Count / First().method), inner Select, operand of `and` — quick: all functions "
+    "conditional, argument of another documented function, predicate of Where (then Count / First().method), inner Select (alone / summed), operand of `and` / `or`, list element, seed and body of an Aggregate, "
+    "150 (quick) / 2500 (thorough) NESTED positions (method argument, user-function argument, subscript, sqrt, unary minus, conditional, + and / composed at random to depth 3 around the call), "
+    "and the shadowing positions (argument of a METHOD named like the function, body of a lambda whose PARAMETER is named like the function and is called, a query that declares a USER C++ FUNCTION named like the function) — quick: all functions "
     "on ATLAS and 8 on the CMS backends, thorough: all on all three; judged by PlacementSpec (accepted, some expression of the emitted code means the call, header "
-    "included) and tied to the model by containment of the model's text of the call; (f) event level: every documented function on operands whose evaluation emits "
+    "included) and tied to the model by containment of the model's text of the call and by PositionTie (the positions model's statements, in its order, then the text of the position's value occur in the rendered "
+    "per-event method; its include requests were added; accepted by both or by neither); (f) event level: every documented function on operands whose evaluation emits "
     "statements and moves the translator's cursor — X.First().m(), X.Select(..).First(), X.Select(..).Sum(), X.Count(), constants — as the whole column (every function "
     "with every double parameter straight out of a First(): all on ATLAS, 8 on the CMS backends) and, with a random mix of those operand kinds, as column inside "
     "arithmetic, first / last tuple element, dict element, argument of another function, event filter (Where on the dataset); (g) histories: the same query object "
@@ -2580,6 +2854,9 @@ TRUSTED_BASE = [
     "model of the compiled-job oracle (JOB_MOCK: event store, collections of pointers / values, handles, tokens, tree) and the extraction of the method body by brace matching",
     "the companion stream's reading of the translation order of include requests (a companion's own before its arguments, a function's after its arguments) — checked by the ordered "
     "tie on every case; the stand-in headers of the exact-include compilation (math.h empty, TVector2.h with Phi_mpi_pi) and the python references of the companions",
+    "hand models of the call visitor on the positions (PosModel.lean: visit_Call_Member, process_ast_node, visit_Subscript, visit_Tuple / List / Dict, visit_IfExp, visit_Compare, visit_BoolOp, "
+    "call_Where, visit_call_Aggregate_initial, statement.set_var) as far as value text, declared type, include requests and the order of emitted statements go; tied by PositionTie on every placement "
+    "case; compare_operations and the call_<name> methods are regenerated from the source; the harness supplies the C++ text of the loop variables and the declared method types",
     "ArgShape / columnCode (Lean): a hand model of the block structure visit_function_ast's arguments leave behind, up to the position of declarations inside a block; "
     "tied to the code by AliveSpec evaluated on the rendered method",
     "numerical agreement of libm with python's math module (tolerance 1e-9 relative) and the C definitions used where python has no such function "
@@ -2603,15 +2880,32 @@ LEVEL_TEXT = (
     "blocks that declare the variables it mentions (call_alive), so AliveSpec holds of it; two literals show the clause rejects a call emitted after its First() loop was closed and a "
     "call that names the loop variable of another translation; and whatever include requests other constructs of the query make before or after the expression's own (withCompanions), "
     "cmath stays in the list and every rendered file that calls a math function sees it (package_companions_partial; companions_discriminates: an add_include that took math.h and cmath for "
-    "one path fails the clause in the companion-first order only). Two counterexample theorems (remquo, abs(int)/2) mark where the full statement is false of the code."
+    "one path fails the clause in the companion-first order only). Two counterexample theorems (remquo, abs(int)/2) mark where the full statement is false of the code. "
+    "Positions (the call as argument of a method or of a user C++ function, tuple / list / dict element, subscript, test or arm of a conditional, operand of a comparison or of and / or, Where "
+    "predicate, body of an inner Select, seed / body of an aggregate, any nesting, unbounded): the find_known_functions pre-pass replaces every Name-call by the row of its own key and changes "
+    "nothing else (resolved_everywhere), every documented function is replaced by a namesake row that pulls in cmath and is never left as an unknown call (documented_resolved_everywhere), the pre-pass "
+    "fails only on module-less bindings (resolve_total, documented_positions_never_refused); shadowing is stated exactly (shadow_method, shadow_lambda_param, shadow_variable, shadow_user_function, "
+    "user_function_used_iff_not_in_table); the call is emitted as cpp_name(args) whatever its arguments are (call_emitted_everywhere); cmath is requested and reachable in every rendered file "
+    "(includes_of_replaced, includes_reachable_positions, package_positions); the emitted term means what the query means through every construct (sem_emit, namesake_semantics_positions, "
+    "documented_call_in_scope, cmp_ops_ok); every position that is well formed for the call visitor is accepted, the only condition on a math call being that its arguments are values "
+    "(accepted_emit, positions_accepted); namesake_positions_counterexample_abs_int marking the known defect at a position and position_tie_discriminates the tie predicate."
 )
 LEVEL_NOTE = (
     "Theorem: table facts (all rows), resolver/emission facts (all expressions), namesake semantics for expressions with int/double operands, + - * / **, unary + -, and "
-    "every documented function except remquo and abs-of-integers (defect exclusions, each with a counterexample theorem and a listed finding). Sampled only: "
-    "the positions other than value / arithmetic operand / argument of another math function (method and user-function arguments, tuple, dict, index, conditional, Where, "
-    "inner Select: the model has no such constructs, the Lean Spec is evaluated on the implementation's output there), the event-level positions and the re-translation histories "
-    "(PlacementSpec + AliveSpec on the implementation's output and the compiled per-event method over mock events; the model of the block structure is proved to satisfy AliveSpec "
-    "but is not compared line by line with the rendered method), the package rendering beyond its include lists, "
+    "every documented function except remquo and abs-of-integers (defect exclusions, each with a counterexample theorem and a listed finding). POSITIONS (PosModel / PosTheorems.lean): "
+    "the model's language now has method calls, user C++ functions, tuple / list / dict, subscript, conditional, comparison, and / or, lambdas and the sequence operators "
+    "(Where, Select, Aggregate, ...) around a math call; for every expression of that language, without bound: resolved_everywhere / documented_resolved_everywhere (the pre-pass "
+    "annotates every Name-call with the row of its own key and changes nothing else; a documented function is never left alone, never given another function's row), the shadowing "
+    "statements (a method named like a function is never replaced; lambda parameters do not shadow; the table wins over a user C++ function of the same name), call_emitted_everywhere, "
+    "accepted_emit / positions_accepted (a math call is never the reason of a refusal), includes_reachable_positions / package_positions, namesake_semantics_positions (sem_emit for every configuration: the emitted term denotes what the query denotes under every "
+    "interpretation of the cmath meanings, of arithmetic and of the surrounding constructs, which are uninterpreted constructors; scope ScopedX is decidable and, by "
+    "documented_call_in_scope, excludes only the two defect classes and float operands). Tied on every placement case: the statements the model says are emitted (if / else / assignments of "
+    "conditionals and of and / or, the substituted argument of a user function, the if of a Where, accumulator initialisation and update) occur in the model's order in the rendered per-event "
+    "method, followed by the text of the position's value; the model's include requests were added; accepted by both or by neither. NOT in the positions model (other properties): which loop variable "
+    "a lambda parameter is bound to (the harness supplies the C++ text of each variable), loop headers, declarations and braces, the text substitution inside a user function's code lines, "
+    "the query rewrites that run before the pre-pass (aggregate shortcuts, chained-call simplification). Sampled only: the event-level block structure (AliveSpec on the implementation's output and "
+    "the compiled per-event method over mock events; the model of the block structure is proved to satisfy AliveSpec but is not compared line by line with the rendered method), the re-translation "
+    "histories, the package rendering beyond its include lists, "
     "float-typed operands, % and not (accepted — `not x` is declared bool since ea7911a, so it is refused as an operand of + - * / % and accepted elsewhere; judged by the Spec on the implementation), and the numeric values (libm is trusted). The hand model's agreement with the "
     "python is checked by differential execution on three backends, not proved. Trusted: Lean kernel (axioms audited), translator, harness, my reading of <cmath>."
 )
